@@ -44,7 +44,7 @@ Trees ==
      << N(<<nA>>, "d"), N(<<nA, nA>>, "f"), N(<<nA, nB>>, "f"), N(<<nA, nDotH>>, "f"), N(<<nB>>, "f"),
         N(<<nDotH>>, "d"), N(<<nDotH, nA>>, "f"), N(<<nD>>, "d"), N(<<nD, nAA>>, "f") >>,
      \* 3: names with a space and with a metacharacter
-     << N(<<nXY>>, "f"), N(<<nStar>>, "f"), N(<<nA>>, "f"), N(<<nAb>>, "f") >>,
+     << N(<<nXY>>, "f"), N(<<nStar>>, "f"), N(<<<<"s", "a">>>>, "f"), N(<<nA>>, "f"), N(<<nAb>>, "f") >>,
      \* 4: symbolic links: to a directory, to a file, dangling
      << N(<<nA>>, "d"), N(<<nA, nB>>, "f"), N(<<nB>>, "f"), L(<<nLa>>, <<nA>>), L(<<nLf>>, <<nB>>), L(<<nLx>>, <<nNowhere>>) >>,
      \* 5: three levels
@@ -55,6 +55,17 @@ Trees ==
      << N(<<nA>>, "d"), N(<<nA, nA>>, "f"), N(<<nA, nB>>, "d"), N(<<nA, nB, nA>>, "f"), N(<<nA, nDotH>>, "f"),
         N(<<nDotH>>, "d"), N(<<nDotH, nA>>, "f"), N(<<nD>>, "d"), N(<<nD, nAA>>, "f"), N(<<nB>>, "f"), N(<<nAA>>, "f"),
         N(<<nAc>>, "f"), N(<<nXY>>, "f"), N(<<nStar>>, "f"), L(<<nLa>>, <<nA>>), L(<<nLf>>, <<nB>>), L(<<nLx>>, <<nNowhere>>) >> >>
+  \o (IF ~Wide THEN <<>> ELSE
+  << \* 8: only hidden entries
+     << N(<<nDotH>>, "f"), N(<<<<".", "a">>>>, "d"), N(<<<<".", "a">>, nB>>, "f") >>,
+     \* 9: case variants
+     << N(<<nA>>, "f"), N(<<nAA>>, "f"), N(<<nAb>>, "f"), N(<<<<"A", "b">>>>, "f"), N(<<<<"D">>>>, "d"), N(<<<<"D">>, nA>>, "f") >>,
+     \* 10: a link to a link to a directory, a link to a file inside the directory
+     << N(<<nA>>, "d"), N(<<nA, nB>>, "f"), L(<<nLa>>, <<nA>>), L(<<<<"l", "l">>>>, <<nLa>>), N(<<nD>>, "d"), N(<<nD, nA>>, "d"), N(<<nD, nA, nB>>, "f") >>,
+     \* 11: a directory whose name has a space, a file whose name is a pattern
+     << N(<<nXY>>, "d"), N(<<nXY, nA>>, "f"), N(<<nStar>>, "f"), N(<<<<"s", "a">>>>, "f"), N(<<<<"[", "a", "b", "]">>>>, "f") >>,
+     \* 12: deep
+     << N(<<nA>>, "d"), N(<<nA, nA>>, "d"), N(<<nA, nA, nA>>, "d"), N(<<nA, nA, nA, nB>>, "f"), N(<<nB>>, "f"), N(<<nA, nDotH>>, "d"), N(<<nA, nDotH, nA>>, "f") >> >>)
 
 HasNode(t, p) == \E i \in 1..Len(t) : t[i].p = p
 NodeAt(t, p) == t[CHOOSE i \in 1..Len(t) : t[i].p = p]
@@ -66,7 +77,9 @@ Resolve(t, p, fuel) ==
   ELSE LET n == NodeAt(t, p) IN IF n.k = "l" THEN Resolve(t, n.t, fuel - 1) ELSE n.k
 IsDir(t, p) == Resolve(t, p, 3) = "d"
 \* the real directory behind a path (one link level is enough for the menus)
-RealDir(t, p) == IF p # <<>> /\ HasNode(t, p) /\ NodeAt(t, p).k = "l" THEN NodeAt(t, p).t ELSE p
+RECURSIVE RealDirF(_, _, _)
+RealDirF(t, p, fuel) == IF fuel > 0 /\ p # <<>> /\ HasNode(t, p) /\ NodeAt(t, p).k = "l" THEN RealDirF(t, NodeAt(t, p).t, fuel - 1) ELSE p
+RealDir(t, p) == RealDirF(t, p, 3)
 \* names in a directory (given by its real path), in byte order
 ChildSet(t, d) == { t[i].p[Len(d) + 1] : i \in { j \in 1..Len(t) : Len(t[j].p) = Len(d) + 1 /\ IsPrefix(d, t[j].p) } }
 Children(t, d) == SortTexts(ChildSet(t, d))
@@ -86,6 +99,11 @@ PGlobStar == PE("globstar", "", {}, FALSE, <<"*", "*">>)   \* a whole component 
 
 IsMeta(e) == e.k \in {"star", "any", "set", "globstar", "ext"}
 CompHasMeta(c) == \E i \in 1..Len(c) : IsMeta(c[i])
+\* has * ? [ somewhere, also inside an extended operator or as its operator character
+RECURSIVE ElemHasPlainMeta(_)
+ElemHasPlainMeta(e) == e.k \in {"star", "any", "set", "globstar"} \/ (e.k = "ext" /\ (e.c \in {"*", "?"} \/
+                         \E k \in 1..Len(e.alts) : \E m \in 1..Len(e.alts[k]) : ElemHasPlainMeta(e.alts[k][m])))
+CompHasPlainMeta(c) == \E k \in 1..Len(c) : ElemHasPlainMeta(c[k])
 RECURSIVE CompSrc(_)
 CompSrc(c) == IF c = <<>> THEN <<>> ELSE Head(c).src \o CompSrc(Tail(c))
 RECURSIVE CompLit(_)
@@ -114,29 +132,31 @@ Match(p, s, nocase) ==
          [] e.k = "set"  -> s # <<>> /\ (InSet(Head(s), e.cs, nocase) # e.neg) /\ Match(Tail(p), Tail(s), nocase)
 
 \* Named deviations of the implementation (switches, as in ShParam): ExpandPath({}, ...) is the contract.
-\*  DotRuleStarAnyOnly    a leading "." of a name is only protected from "*" and "?" (so [!a]* and [.]h and *.* match .h)
-\*  EscapedMetaIsPattern  a word whose only metacharacters are backslash-escaped (s\*) is still globbed:
-\*                        with nullglob and no file of that name it expands to nothing
+\*  DotRuleStarOnly       a leading "." of a name is only protected from a "*" that starts the component: ?h, [!a]*,
+\*                        [.]h and *.* all match .h (pattern.Regexp, Filenames mode)
+\*  EscapedMetaIsPattern  a backslash-escaped * or ? in a word acts as the wildcard: s\* expands to s* sa, and with
+\*                        nullglob and no match to nothing (expand.go wordFields drops the backslash before globbing)
 \*  GlobstarFollowsLinks  "**" descends through symbolic links to directories
 \*  ExtNeedsPlainMeta     a word whose only metacharacters are @( +( !( is not globbed at all (expand.go escapedGlobField
-\*                        looks for * ? [ only)
-AllDevs == {"DotRuleStarAnyOnly", "EscapedMetaIsPattern", "GlobstarFollowsLinks", "ExtNeedsPlainMeta"}
+\*                        looks for * ? [ only), and a path component of that kind is taken as a literal name (glob uses
+\*                        pattern.HasMeta, which does not know the extended operators)
+AllDevs == {"DotRuleStarOnly", "EscapedMetaIsPattern", "GlobstarFollowsLinks", "ExtNeedsPlainMeta"}
 
-\* the implementation's dot rule: at the start of a name that begins with ".", "*" may only match nothing
-\* and "?" does not match; anything else (a bracket, a literal) may take the dot
+\* the implementation's dot rule: at the start of a name that begins with ".", "*" may only match nothing;
+\* anything else ("?", a bracket, a literal) may take the dot
 RECURSIVE MatchDev(_, _, _, _)
 MatchDev(p, s, nocase, lead) ==
   IF p = <<>> THEN s = <<>>
   ELSE LET e == Head(p) IN
        CASE e.k = "ext" -> \E i \in 0..(IF lead THEN 0 ELSE Len(s)) : ExtMatch(e.c, e.alts, Take(s, i), nocase) /\ MatchDev(Tail(p), Drop(s, i), nocase, lead /\ i = 0)
          [] e.k \in {"star", "globstar"} -> \E i \in 0..(IF lead THEN 0 ELSE Len(s)) : MatchDev(Tail(p), Drop(s, i), nocase, lead /\ i = 0)
-         [] e.k = "any"  -> s # <<>> /\ ~lead /\ MatchDev(Tail(p), Tail(s), nocase, FALSE)
+         [] e.k = "any"  -> s # <<>> /\ MatchDev(Tail(p), Tail(s), nocase, FALSE)
          [] e.k = "lit"  -> s # <<>> /\ Eq(Head(s), e.c, nocase) /\ MatchDev(Tail(p), Tail(s), nocase, FALSE)
          [] e.k = "set"  -> s # <<>> /\ (InSet(Head(s), e.cs, nocase) # e.neg) /\ MatchDev(Tail(p), Tail(s), nocase, FALSE)
 
 \* a name is matched by a component: the leading dot rule, then Match
 MatchName(dv, c, name, o) ==
-  IF "DotRuleStarAnyOnly" \in dv /\ "dotglob" \notin o
+  IF "DotRuleStarOnly" \in dv /\ "dotglob" \notin o
   THEN MatchDev(c, name, "nocaseglob" \in o, name[1] = ".")
   ELSE /\ (name[1] = "." => ("dotglob" \in o \/ (c # <<>> /\ c[1].k = "lit" /\ c[1].c = ".")))
        /\ Match(c, name, "nocaseglob" \in o)
@@ -195,6 +215,10 @@ Words ==
      W(<< <<PGlobStar>>, <<PLit("."), PStar>> >>, FALSE),         \* **/.*
      W(<< cLit(nD), <<PLit("a")>> \o <<PStar>> >>, FALSE),        \* d/a*    (nocaseglob)
      W(<< <<PLit("D")>>, <<PStar>> >>, FALSE),                    \* D/*     (a literal component is not case-folded)
+     W(<< << PQ("s", <<"\"", "s">>), PQ("*", <<"*", "\"">>), PStar >> >>, FALSE),   \* "s*"*
+     W(<< <<PAny, PLit("h")>> >>, FALSE),                         \* ?h
+     W(<< <<PLit("a"), PAny, PLit("c")>> >>, FALSE),              \* a?c
+     W(<< <<PStar>>, <<PLit("z"), PLit("z"), PStar>> >>, FALSE),  \* */zz*
      \* extended operators (only with extglob)
      W(<< <<xAB("@")>> >>, FALSE),                                \* @(a|b)
      W(<< <<xA("!")>> >>, FALSE),                                 \* !(a)
@@ -206,7 +230,7 @@ Words ==
      W(<< <<PExt("!", << <<PStar, PLit("."), PStar>> >>, <<"!", "(", "*", ".", "*", ")">>)>> >>, FALSE),   \* !(*.*)
      W(<< <<PLit("a"), PExt("@", << <<PLit("."), PLit("c")>>, <<PLit("b")>> >>, <<"@", "(", ".", "c", "|", "b", ")">>)>> >>, FALSE),   \* a@(.c|b)
      W(<< <<xAB("@")>>, <<PStar>> >>, FALSE) >>                   \* @(a|b)/*
-NPlainWords == 41
+NPlainWords == 45
 
 RECURSIVE WordSrcCs(_)
 WordSrcCs(cs) == IF cs = <<>> THEN <<>> ELSE IF Len(cs) = 1 THEN CompSrc(cs[1]) ELSE CompSrc(cs[1]) \o <<"/">> \o WordSrcCs(Tail(cs))
@@ -260,7 +284,7 @@ FlatMap(F(_), s) == Flatten([i \in 1..Len(s) |-> F(s[i])])
 
 \* one component applied to one partial match; last = no component follows; needDir = only directories wanted
 StepOne(dv, t, c, pm, o, needDir) ==
-  IF ~CompHasMeta(c) THEN
+  IF ~CompHasMeta(c) \/ ("ExtNeedsPlainMeta" \in dv /\ ~CompHasPlainMeta(c)) THEN
      LET nm == CompLit(c) IN
      IF nm = <<".">> THEN << PM(Ext(pm.out, nm), pm.dir) >>
      ELSE IF nm = <<".", ".">> THEN (IF pm.dir = <<>> THEN <<>> ELSE << PM(Ext(pm.out, nm), Take(pm.dir, Len(pm.dir) - 1)) >>)
@@ -277,8 +301,8 @@ Walk(dv, t, cs, pms, o, slash) ==      \* pms: sequence of partial matches; retu
     IF c = <<PGlobStar>> /\ "globstar" \in o THEN
        IF last /\ ~slash THEN
           \* "**" as the last component: everything below, plus "prefix/" itself
-          LET F(pm) == (IF pm.out = <<>> THEN <<>> ELSE << pm.out \o <<"/">> >>) \o AllBelow(dv, t, pm.out, pm.dir, o, 3) IN FlatMap(F, pms)
-       ELSE LET F(pm) == Below(dv, t, pm.out, pm.dir, o, 3, last) IN
+          LET F(pm) == (IF pm.out = <<>> THEN <<>> ELSE << pm.out \o <<"/">> >>) \o AllBelow(dv, t, pm.out, pm.dir, o, 4) IN FlatMap(F, pms)
+       ELSE LET F(pm) == Below(dv, t, pm.out, pm.dir, o, 4, last) IN
             IF last THEN  \* "**/": the directories below, each with a slash; the zero-level one only under a prefix
                  LET ds == FlatMap(F, pms) IN
                  [i \in 1..Len(SelectSeq(ds, LAMBDA x : x.out # <<>>)) |-> SelectSeq(ds, LAMBDA x : x.out # <<>>)[i].out \o <<"/">>]
@@ -287,18 +311,20 @@ Walk(dv, t, cs, pms, o, slash) ==      \* pms: sequence of partial matches; retu
              F(pm) == StepOne(dv, t, cc, pm, o, ~last \/ slash)
          IN Walk(dv, t, Tail(cs), FlatMap(F, pms), o, slash)
 
-\* has * ? [ somewhere, also inside an extended operator or as its operator character
-RECURSIVE ElemHasPlainMeta(_)
-ElemHasPlainMeta(e) == e.k \in {"star", "any", "set", "globstar"} \/ (e.k = "ext" /\ (e.c \in {"*", "?"} \/
-                         \E k \in 1..Len(e.alts) : \E m \in 1..Len(e.alts[k]) : ElemHasPlainMeta(e.alts[k][m])))
-WordHasPlainMeta(w) == \E i \in 1..Len(w.cs) : \E k \in 1..Len(w.cs[i]) : ElemHasPlainMeta(w.cs[i][k])
-ExpandPath(dv, t, w, o) ==
-  IF "ExtNeedsPlainMeta" \in dv /\ WordHasMeta(w) /\ ~WordHasPlainMeta(w) THEN << WordLit(w) >>
+WordHasPlainMeta(w) == \E i \in 1..Len(w.cs) : CompHasPlainMeta(w.cs[i])
+\* the word as the implementation sees it under EscapedMetaIsPattern: \* is *, \? is ?
+UnescapeComp(c) == [k \in 1..Len(c) |->
+                     IF c[k].k = "lit" /\ c[k].src[1] = "\\" /\ c[k].c = "*" THEN PStar
+                     ELSE IF c[k].k = "lit" /\ c[k].src[1] = "\\" /\ c[k].c = "?" THEN PAny ELSE c[k]]
+UnescapeWord(w) == [cs |-> [i \in 1..Len(w.cs) |-> UnescapeComp(w.cs[i])], slash |-> w.slash]
+ExpandPath(dv, t, w0, o) ==
+  LET w == IF "EscapedMetaIsPattern" \in dv THEN UnescapeWord(w0) ELSE w0 IN
+  IF "ExtNeedsPlainMeta" \in dv /\ WordHasMeta(w) /\ ~WordHasPlainMeta(w) THEN << WordLit(w0) >>
   ELSE
-  IF "noglob" \in o \/ (~WordHasMeta(w) /\ ~("EscapedMetaIsPattern" \in dv /\ WordHasEscapedMeta(w))) THEN << WordLit(w) >>
+  IF "noglob" \in o \/ ~WordHasMeta(w) THEN << WordLit(w0) >>
   ELSE LET r == Walk(dv, t, w.cs, <<PM(<<>>, <<>>)>>, o, w.slash)
            ms == SortTexts({ r[i] : i \in 1..Len(r) })
-       IN IF ms = <<>> THEN (IF "nullglob" \in o THEN <<>> ELSE << WordLit(w) >>) ELSE ms
+       IN IF ms = <<>> THEN (IF "nullglob" \in o THEN <<>> ELSE << WordLit(w0) >>) ELSE ms
 
 \* ------------------------------------------------------------------ options
 AllOpts == {"dotglob", "nullglob", "globstar", "nocaseglob", "noglob", "extglob"}
